@@ -88,7 +88,9 @@ def run(res):
                 "{connect a block of 0-4 fitting transactions, disconnect (runs <= 4)}; malformed: the same with "
                 "double spends, a second close, a two-input close, children before parents, a commitment the signer "
                 "has no info for, and a stream without block start; burial: is_done at depth 99/100/99. Delivery "
-                "compact or streamed, through the tracker or the listener interface. A case is non-trivial when it is "
+                "compact (SPV part with every transaction), watched (SPV part with what the tracker's watch sets match, empty for "
+                "unrelated blocks) or streamed, through the tracker or the listener interface; signer restarts (tracker, monitors "
+                "and channel persisted through KVVPersister/JSON, Node::restore_node) anywhere in the tracker-driven histories. A case is non-trivial when it is "
                 "admissible, contains a disconnection and at least two blocks; distinct by full history",
         "samples": sample,
         "traces_validated_against_impl": len(cases),
@@ -97,6 +99,7 @@ def run(res):
         "harness_stats": agg,
     })
     res.assumptions = [
+        "a restart restores exactly the persisted monitor State and ListenSlot (serde round trip; exercised on every restart step, C14_best_chain_restarts is stated over persist / restore)",
         "the block delivered on a disconnection is the block that was connected at that height (tracker validation, C13)",
         "the classification of a funding spend (commitment / mutual, our output, spendable HTLC outputs) is a function of the transaction and does not change between connection and disconnection",
         "chains are consistent: unique txids, no outpoint spent twice, inputs refer to earlier transactions only; the funding transaction spends the registered funding inputs (all checked as a boolean on every generated admissible history)",
